@@ -284,12 +284,20 @@ func fixedSignCases() []SignCase {
 		{Tree: tr[1], Fixture: 4, ChainLen: 1, Pem: "encrypted", Pass: "secret", OCSP: vh.B{0x30, 0x03, 0x0a, 0x01, 0x00}, RecordSize: 1, Win: Window{DateAgo: 5 * 24 * 3600, Expire: 7 * 24 * 3600, ExpireAs: "h", ZoneMin: 540}, Validity: "https://a.example/validity"},
 		{Tree: tr[2], Fixture: 5, ChainLen: 2, Pem: "pkcs8", OCSP: vh.B("x"), RecordSize: 16384, Win: Window{DateAgo: -1}, Validity: ""},
 		{Tree: tr[3], Fixture: 0, ChainLen: 2, Pem: "pkcs8", OCSP: vh.B("x"), RecordSize: 0, Win: Window{DateAgo: 120, Expire: 900, ExpireAs: "m"}, Validity: "https://a.example/validity"}, // c.example not covered by fixture 0
+		// large files (2^k + 1 octets: code that scales record sizes, buffers or counts with the payload)
+		{Tree: TreeCase{Base: "https://a.example/", Version: "b2", Files: []FileSpec{{Path: []string{"big.bin"}, Fill: 1<<22 + 1}, {Path: []string{"small.txt"}, Body: vh.B("hello")}}},
+			Fixture: 0, ChainLen: 1, Pem: "sec1", OCSP: vh.B("x"), RecordSize: 4096, Win: Window{DateAgo: 600, Expire: 3600, ExpireAs: "go"}, Validity: "https://a.example/validity"},
+		{Tree: TreeCase{Base: "https://a.example/", Version: "b1", Files: []FileSpec{{Path: []string{"big.bin"}, Fill: 1<<20 + 1}, {Path: []string{"more.bin"}, Fill: 5 << 20}}},
+			Fixture: 0, ChainLen: 1, Pem: "pkcs8", OCSP: vh.B("x"), RecordSize: 16384, Win: Window{DateAgo: 600, Expire: 3600, ExpireAs: "go"}, Validity: "https://a.example/validity"},
 	}
 }
 
 func TestFixedSignSections(t *testing.T) {
 	needCLI(t)
-	for _, c := range fixedSignCases() {
+	for i, c := range fixedSignCases() {
+		if !c.Tree.valid() || !c.Win.ok() || !pemOK(c.Pem, c.Pass, true) {
+			t.Fatalf("c20: fixed sign case %d is outside the sub-check's domain and would be skipped silently", i)
+		}
 		if !signProp.One(t, c) {
 			return
 		}
